@@ -37,6 +37,8 @@ type ABCIGenesis struct {
 	VestingDenom string `json:"vesting_denom,omitempty"`
 	// SecondDenom: every account also holds coins of the other denomination (uatom) at genesis
 	SecondDenom bool `json:"second_denom,omitempty"`
+	// BankSendOff: the bank's send-enabled switch in the genesis file (see GenesisSpec.BankSendOff)
+	BankSendOff string `json:"bank_send_off,omitempty"`
 	// UpperOwners lists the pool owners (account indexes) that the genesis file spells in upper case bech32
 	UpperOwners []int `json:"upper_owners,omitempty"`
 }
@@ -83,6 +85,9 @@ func GenABCIGenesis(t *rapid.T) ABCIGenesis {
 	if rapid.IntRange(0, 3).Draw(t, "vestingDenom") == 0 {
 		g.VestingDenom = "uatom"
 	}
+	if rapid.IntRange(0, 7).Draw(t, "bankSendOff") == 0 {
+		g.BankSendOff = []string{"default", Denom}[rapid.IntRange(0, 1).Draw(t, "bankSendOffKind")]
+	}
 	for _, o := range []int{1, 2} {
 		if n > 0 && rapid.IntRange(0, 3).Draw(t, fmt.Sprintf("upperOwner%d", o)) == 0 {
 			g.UpperOwners = append(g.UpperOwners, o)
@@ -94,6 +99,7 @@ func GenABCIGenesis(t *rapid.T) ABCIGenesis {
 func (g ABCIGenesis) Spec() GenesisSpec {
 	mp, _ := g.Minter.Build()
 	spec := BaseSpec()
+	spec.BankSendOff = g.BankSendOff
 	spec.Minter = &mintertypes.GenesisState{Params: mp, MinterState: mintertypes.MinterState{SequenceId: g.Minter.FirstID, AmountMinted: sdk.ZeroInt(),
 		RemainderToMint: sdk.ZeroDec(), RemainderFromPreviousMinter: sdk.ZeroDec(), LastMintBlockTime: T0}}
 	spec.Distributor = &distrtypes.GenesisState{Params: g.Distr.Build()}
